@@ -29,8 +29,8 @@ def Expr.isAct : Expr → Bool
 def peek (inp : List Sym) (p : Nat) : Sym := (inp[p]?).getD END
 
 /-- Index of the first key list containing `c`, else `keys.length` (the default case). -/
-def caseIdx (keys : List (List Sym)) (c : Sym) : Nat :=
-  match keys.findIdx? (fun ks => ks.contains c) with
+def caseIdx (keys : List KeySet) (c : Sym) : Nat :=
+  match keys.findIdx? (fun ks => ks.has c) with
   | some i => i
   | none => keys.length
 
